@@ -296,9 +296,13 @@ class Backend(ABC):
                     queries.append(result)
 
             error_state = "finalizing query for"
-            # 3. Postprocess generated query if not part of a correlation rule
-            finalized_queries = (
-                [
+            # 3. Postprocess generated query. The queries that are embedded into a correlation query
+            # are kept unfinalized (unless the backend requests the opposite), but a query that the
+            # rule emits itself (correlation rule with generate: true) is finalized like each other
+            # emitted query.
+            embed_finalized = self.finalize_correlation_subqueries or not rule._backreferences
+            if embed_finalized or rule._output:
+                finalized_queries = [
                     self.finalize_query(
                         rule,
                         query,
@@ -308,10 +312,9 @@ class Backend(ABC):
                     )
                     for index, query in enumerate(queries)
                 ]
-                if self.finalize_correlation_subqueries or not rule._backreferences
-                else queries
-            )
-            rule.set_conversion_result(finalized_queries)
+            else:
+                finalized_queries = []
+            rule.set_conversion_result(finalized_queries if embed_finalized else queries)
             rule.set_conversion_states(states)
             if rule._output:
                 return finalized_queries
